@@ -64,6 +64,13 @@ def _is_simple(vertices):
     Bentley-Ottmann algorithm to check for intersections between the line
     segments.
     """
+    # The sweep-line implementation works with absolute tolerances (1e-10), so the
+    # polygon is moved to the origin and scaled to unit size first.
+    vertices = np.asarray(vertices, dtype=np.float64)
+    vertices = vertices - np.mean(vertices, axis=0)
+    size = np.max(np.abs(vertices))
+    if size > 0:
+        vertices = vertices / size
     return len(poly_point_isect.isect_polygon(vertices)) == 0
 
 
